@@ -28,6 +28,9 @@ def run(ctx):
             n_prec += 1
     finally:
         coregen.MINIMAL_PARENS = False
+    for i, tree in enumerate(coregen.boolean_chain_programs()):
+        tree = coregen.assign_spans([coregen.Gen.norm_s(s) for s in tree], "main.ms")
+        projs.append({"name": "boolchain%d" % i, "files": {"main.ms": coregen.render_ms(tree)}, "entry": "main.ms", "tree": tree, "kind": "skeleton"})
     projs += coretie.gen_programs(ctx, 220 if ctx.quick() else 4000, max_depth=3)
     projs += coretie.gen_programs(ctx, 40 if ctx.quick() else 800, max_depth=5, expr_depth=2)
     results = coretie.tie_all(ctx, binary, projs, "c01")
